@@ -263,13 +263,13 @@ type tcpServer struct {
 }
 
 type tcpServerOpts struct {
-	Keys     []*Key
-	Replay   int
-	Timeout  time.Duration // 0: use the full Service (59s)
-	Metrics  *RecMetrics
-	Dialer   transport.StreamDialer // nil: the default validating dialer
-	AddrStr  string
-	UseSvc   bool
+	Keys    []*Key
+	Replay  int
+	Timeout time.Duration // 0: use the full Service (59s)
+	Metrics *RecMetrics
+	Dialer  transport.StreamDialer // nil: the default validating dialer
+	AddrStr string
+	UseSvc  bool
 }
 
 var proxyIP = net.IPv4(203, 0, 113, 5).To4()
@@ -426,13 +426,13 @@ type target struct {
 }
 
 type targetConn struct {
-	C       *simnet.TCPConn
-	Got     []byte
-	SawEOF  bool
-	EOFAt   time.Duration
+	C        *simnet.TCPConn
+	Got      []byte
+	SawEOF   bool
+	EOFAt    time.Duration
 	GotAtEOF int
-	ReadErr error
-	Done    bool
+	ReadErr  error
+	Done     bool
 }
 
 func startTarget(w *simnet.World, ip net.IP, port int, onConn func(tc *targetConn)) *target {
